@@ -105,7 +105,11 @@ class C09(layfamily.Family):
             if a in ("cell_height", "cell_justification"):
                 # row-level settings: one value per row (read from the row's first cell); scalar or per-row
                 sh = rng.choice(["scalar", "perrow"])
-            if sh == "perrow":
+            if sh == "matrix" and n > 3 and rng.random() < 0.3:
+                sh = "pattern"    # fewer rows than the table: recycled row-wise (A[r % R])
+            if sh == "pattern":
+                v = [[g(rng) for _ in range(ncols)] for _ in range(rng.randint(2, min(5, n - 1)))]
+            elif sh == "perrow":
                 v = [[g(rng)] for _ in range(n)]
             elif sh == "scalar":
                 v = g(rng)
@@ -266,7 +270,7 @@ class C09(layfamily.Family):
         return [[b for b in p if b[0] == "data"] for p in pages]
 
     def nontrivial(self, spec, info, ob):
-        if len(ob["pages"]) >= 2 and "matrix" in info["shapes"].values():
+        if len(ob["pages"]) >= 2 and ("matrix" in info["shapes"].values() or "pattern" in info["shapes"].values()):
             return [info["strategy"], info["nrow"], json.dumps(info["shapes"], sort_keys=True),
                     str([len([b for b in p if b[0] == 'data']) for p in ob["pages"]])]
         return None
